@@ -34,6 +34,7 @@ from typing import Any
 
 VERIF = Path(__file__).resolve().parent.parent
 PYTHON = "/venv/bin/python"
+MAX_CHILDREN = 4  # pristine children running at the same time
 
 
 class FreshUnavailable(Exception):
@@ -107,32 +108,42 @@ def serve() -> None:
         line = line.strip()
         if not line:
             continue
-        job = json.loads(line)
-        r, w = os.pipe()
-        pid = os.fork()
-        if pid == 0:
-            os.close(r)
-            try:
-                res: Any = {"steps": run_history(job)}
-            except BaseException as e:  # noqa: BLE001
-                res = {"crash": f"{type(e).__name__}: {e}"[:300]}
-            data = (json.dumps(res) + "\n").encode()
-            view = memoryview(data)
-            while view:
-                n = os.write(w, view)
-                view = view[n:]
-            os._exit(0)
-        os.close(w)
-        chunks = []
-        while True:
-            b = os.read(r, 1 << 16)
-            if not b:
-                break
-            chunks.append(b)
-        os.close(r)
-        os.waitpid(pid, 0)
-        data = b"".join(chunks).decode().strip() or json.dumps({"crash": "the child wrote nothing"})
-        stdout.write(data + "\n")
+        batch = json.loads(line)["jobs"]
+        results: list[str | None] = [None] * len(batch)
+        running: dict[int, tuple[int, int]] = {}  # read end of the pipe -> (index, pid)
+        buffers: dict[int, list[bytes]] = {}
+        nxt = 0
+        while nxt < len(batch) or running:
+            while nxt < len(batch) and len(running) < MAX_CHILDREN:
+                r, w = os.pipe()
+                pid = os.fork()
+                if pid == 0:
+                    os.close(r)
+                    for fd in running:
+                        os.close(fd)
+                    try:
+                        res: Any = {"steps": run_history(batch[nxt])}
+                    except BaseException as e:  # noqa: BLE001
+                        res = {"crash": f"{type(e).__name__}: {e}"[:300]}
+                    view = memoryview(json.dumps(res).encode())
+                    while view:
+                        view = view[os.write(w, view):]
+                    os._exit(0)
+                os.close(w)
+                running[r] = (nxt, pid)
+                buffers[r] = []
+                nxt += 1
+            ready, _, _ = select.select(list(running), [], [])
+            for fd in ready:
+                b = os.read(fd, 1 << 16)
+                if b:
+                    buffers[fd].append(b)
+                    continue
+                idx, pid = running.pop(fd)
+                os.close(fd)
+                os.waitpid(pid, 0)
+                results[idx] = b"".join(buffers.pop(fd)).decode().strip() or json.dumps({"crash": "the child wrote nothing"})
+        stdout.write("[" + ",".join(r or "null" for r in results) + "]\n")
         stdout.flush()
 
 
@@ -148,6 +159,7 @@ class FreshServer:
         self.ready = False
         self.info: dict[str, Any] = {}
         self.jobs = 0
+        self.restarts = 0
         self.failed: str | None = None
 
     def start(self) -> None:
@@ -193,24 +205,33 @@ class FreshServer:
         self.info = json.loads(self._readline(timeout))
         self.ready = True
 
+    def run_many(self, histories: list[list[dict[str, Any]]], timeout: float = 300.0) -> list[list[dict[str, Any]]]:
+        """Observations of every history of `histories`, each run in its own process that has sampled nothing
+        before (up to MAX_CHILDREN at the same time)."""
+        keys = [json.dumps(steps, sort_keys=True) for steps in histories]
+        todo: dict[str, list[dict[str, Any]]] = {}
+        for key, steps in zip(keys, histories):
+            if key not in self.cache:
+                todo.setdefault(key, steps)
+        if todo:
+            self.wait_ready()
+            assert self.proc is not None and self.proc.stdin is not None
+            try:
+                self.proc.stdin.write(json.dumps({"jobs": [{"steps": steps} for steps in todo.values()]}) + "\n")
+                self.proc.stdin.flush()
+            except OSError:
+                self._fail("the server pipe is closed")
+            answers = json.loads(self._readline(timeout))
+            self.jobs += len(todo)
+            for key, ans in zip(todo, answers):
+                if ans is None or "crash" in ans:
+                    raise FreshUnavailable("child crashed: " + str(ans and ans["crash"]))
+                self.cache[key] = ans["steps"]
+        return [self.cache[key] for key in keys]
+
     def run(self, steps: list[dict[str, Any]], timeout: float = 120.0) -> list[dict[str, Any]]:
         """Observations of the history `steps` run in a process that has sampled nothing before."""
-        key = json.dumps(steps, sort_keys=True)
-        if key in self.cache:
-            return self.cache[key]
-        self.wait_ready()
-        assert self.proc is not None and self.proc.stdin is not None
-        try:
-            self.proc.stdin.write(json.dumps({"steps": steps}) + "\n")
-            self.proc.stdin.flush()
-        except OSError:
-            self._fail("the server pipe is closed")
-        ans = json.loads(self._readline(timeout))
-        self.jobs += 1
-        if "crash" in ans:
-            raise FreshUnavailable("child crashed: " + ans["crash"])
-        self.cache[key] = ans["steps"]
-        return ans["steps"]
+        return self.run_many([steps], timeout)[0]
 
     def stop(self) -> None:
         if self.proc is not None:
